@@ -50,10 +50,21 @@ let kv tok = match String.index_opt tok '=' with
 
 (* ---- rationals for messages ---- *)
 let float_of_q (x : q) : float =
-  (* approximate value, for messages only *)
-  let rec fpos = function XH -> 1.0 | XO p -> 2.0 *. fpos p | XI p -> 2.0 *. fpos p +. 1.0 in
-  let n = match x.qnum with Z0 -> 0.0 | Zpos p -> fpos p | Zneg p -> -. fpos p in
-  n /. fpos x.qden
+  (* approximate value, for messages only: mantissa and binary exponent kept apart so that thousands of bits
+     in numerator and denominator do not overflow *)
+  let rec bits = function XH -> [true] | XO p -> false :: bits p | XI p -> true :: bits p in
+  let mant_exp p =
+    let b = List.rev (bits p) in   (* most significant first *)
+    let n = List.length b in
+    let rec take k l acc = match l with x :: r when k > 0 -> take (k - 1) r (2.0 *. acc +. (if x then 1.0 else 0.0)) | _ -> acc in
+    let used = min n 60 in
+    (take used b 0.0, n - used) in
+  match x.qnum with
+  | Z0 -> 0.0
+  | Zpos p | Zneg p ->
+      let (mn, en) = mant_exp p and (md, ed) = mant_exp x.qden in
+      let v = ldexp (mn /. md) (en - ed) in
+      (match x.qnum with Zneg _ -> -. v | _ -> v)
 
 let q_of_ints a b : q = { qnum = z_of_int a; qden = (match z_of_int b with Zpos p -> p | _ -> XH) }
 
@@ -158,15 +169,23 @@ let process line =
          (* the exact tails on the integer grid of the scores (DistGridModel.conv_tableZ, same checker as through the
             table of all words by C11_grid_checker_eq) when that grid is small and smaller than the number of words:
             long motifs (too many words) and any matrix with cells on a coarse grid; grid_size bounds the number of
-            distinct word scores: sum over the rows of (max - min) of the integer cells at the common exponent, + 1 *)
+            distinct word scores: sum over the rows of (max - min) of the integer cells at the common exponent, divided by
+            the power of two they all share, + 1 *)
          let grid_size =
-           if in_scope then
+           if in_scope then begin
+             let zc = c11_zc mvals in
+             (* the integer cells share the factor 2^t (the common exponent is that of the finest cell): t = the least
+                number of trailing zero bits *)
+             let rec val2 = function XO p -> 1 + val2 p | _ -> 0 in
+             let t = List.fold_left (fun acc row -> List.fold_left (fun acc o ->
+                 match o with Some (Zpos p) | Some (Zneg p) -> min acc (val2 p) | _ -> acc) acc row) max_int zc in
+             let unit = if t = max_int then 1.0 else 2.0 ** float_of_int t in
              List.fold_left (fun acc row ->
                  let vs = List.filter_map (fun o -> match o with Some z -> Some (float_of_z z) | None -> None) row in
                  match vs with
                  | [] -> acc
-                 | v :: r -> acc +. (List.fold_left max v r -. List.fold_left min v r)) 1.0 (c11_zc mvals)
-           else infinity in
+                 | v :: r -> acc +. (List.fold_left max v r -. List.fold_left min v r) /. unit) 1.0 zc
+           end else infinity in
          let grid = in_scope && grid_size <= max_grid && (not exact || grid_size < float_of_int nwords) in
          let per_probe = if grid then 2 * int_of_float grid_size else 2 * nwords in
          let budget = ref 2_500_000 in
@@ -253,7 +272,8 @@ let process line =
          lap "scores";
          (* ---------- the property, decided by the extracted checker ---------- *)
          let pvl = List.rev !pv_list and brl = List.rev !br_list and rtl = List.rev !rt_list in
-         let fails = (if grid then check_C11_grid_fails else check_C11_fails) mvals bg64 impl_sf_vals pvl
+         (* check_C11_red_fails grid = check_C11_fails (C11_red_checker_eq): weights without their common power of two *)
+         let fails = check_C11_red_fails grid mvals bg64 impl_sf_vals pvl
              (List.map (fun (_, _, _, x) -> x) brl) (List.map (fun (_, _, _, _, _, x) -> x) rtl) in
          lap "check_C11";
          List.iter (fun (kind, idx) ->
@@ -281,8 +301,9 @@ let process line =
                       | Ok (_, scale) ->
                           let dd = qdiv (qplus (qdiv (inject_Z (z_of_int mrows)) (q_of_ints 2 1)) (q_of_ints 1 1)) scale in
                           let sq = f64_to_Q (f64_of_f32bits sb) in
-                          let tab = (if grid then conv_tableZ else word_tableZ) (c11_zc mvals) (c11_zb bg64) in
-                          (float_of_q (tail_dy tab (c11_k mvals) (c11_j bg64) (z_of_int mrows)
+                          let (bgz', t) = c11_red (c11_j bg64) (c11_zb bg64) in
+                          let tab = (if grid then conv_tableZ else word_tableZ) (c11_zc mvals) bgz' in
+                          (float_of_q (tail_dy tab (c11_k mvals) (Z.sub (c11_j bg64) t) (z_of_int mrows)
                                          (if code = 3 then qplus sq dd else qminus sq dd)), float_of_q dd)
                       | _ -> (nan, nan)) in
                    let label = if code = 3 then "bracket-below" else "bracket-above" in
